@@ -71,6 +71,19 @@ func checkStream(c StreamCase, o *stats.Obs) error {
 			}
 		}
 	}
+	// what consumers do with a delivered message before they pass its bytes on - display it, display a copy
+	// of it - must leave it the frame it is
+	for i := range res.Msgs {
+		if res.Msgs[i].MessageType < 0 || (i >= 200 && i < len(res.Msgs)-200) {
+			continue // (of a very long stream the first and the last two hundred messages)
+		}
+		cp := res.Msgs[i]
+		drive.Guard(10*time.Second, func() { _ = cp.String(); _ = res.Msgs[i].String() })
+		if err := typedOK(res.Msgs[i].RawData, res.Msgs[i].MessageType); err != nil {
+			o.Key = "typed-nonframe-after-display"
+			return fmt.Errorf("after the delivered message (and a copy of it) was displayed: %v (stream %x)", err, input)
+		}
+	}
 	// The same through FetchNextMessageFrame over a pre-filled, closed channel.
 	ch := make(chan byte, len(input)+1)
 	for _, b := range input {
